@@ -565,14 +565,19 @@ pub fn drop_race(seed: u64, idx: u64) -> Case {
     let rt = tokio::runtime::Builder::new_multi_thread().worker_threads(2).max_blocking_threads(4).enable_time().build().expect("runtime");
     let mut viol: Vec<Violation> = Vec::new();
     let mut counters: BTreeMap<String, u64> = BTreeMap::new();
-    let delays: Vec<(u64, u64)> = (0..trials).map(|_| (rng.below(40_000), rng.below(40_000))).collect();
+    // The closure's running time follows a feedback loop: whenever the closure ended before the wrapper was
+    // dropped it is made a little longer, otherwise a little shorter, so that the trials stay at the point where
+    // the two events coincide. `delays` only holds the jitter and the drop delay of each trial.
+    let delays: Vec<(u64, u64)> = (0..trials).map(|_| (rng.below(600), rng.below(3_000))).collect();
     let d2 = delays.clone();
     let out = rt.block_on(async move {
         tokio::spawn(async move {
             let mut bad: Vec<String> = Vec::new();
             let mut never = 0u64;
             let mut closure_first = 0u64;
-            for (k, (closure_ns, drop_ns)) in d2.into_iter().enumerate() {
+            let mut centre: i64 = 15_000;
+            for (k, (jitter, drop_ns)) in d2.into_iter().enumerate() {
+                let closure_ns = (centre + jitter as i64 - 300).max(0) as u64;
                 let dropped_on = Arc::new(Mutex::new(None));
                 let d = dropped_on.clone();
                 let w = match SyncWrapper::new(deadpool::Runtime::Tokio1, move || Ok::<_, ()>(RaceVal { dropped_on: d })).await {
@@ -606,6 +611,9 @@ pub fn drop_race(seed: u64, idx: u64) -> Case {
                 }
                 if ended.load(Ordering::SeqCst) {
                     closure_first += 1;
+                    centre += 120;
+                } else {
+                    centre = (centre - 120).max(0);
                 }
                 let me = std::thread::current().id();
                 drop(w);
